@@ -213,9 +213,9 @@ func autoUpgradeSMPre(irModule *ir.Module, ep *ir.EntryPoint, smMinor uint32) ui
 // standalone stay as separate LLVM functions.
 func prepareModule(irModule *ir.Module) (*ir.Module, error) {
 	if len(irModule.Functions) == 0 {
-		return ir.CloneModuleForOverrides(irModule), nil
+		return cloneModuleForLowering(irModule), nil
 	}
-	irModule = ir.CloneModuleForOverrides(irModule)
+	irModule = cloneModuleForLowering(irModule)
 	shouldInline := func(callee *ir.Function) bool {
 		if helperNeedsInlining(irModule, callee) {
 			return true
@@ -241,6 +241,71 @@ func prepareModule(irModule *ir.Module) (*ir.Module, error) {
 		return nil, fmt.Errorf("dxil: inline user functions: %w", err)
 	}
 	return irModule, nil
+}
+
+// cloneModuleForLowering returns a copy of the module that the DXIL pipeline
+// may rewrite freely without the caller's module ever changing.
+//
+// ir.CloneModuleForOverrides copies the arenas ProcessOverrides writes to, but
+// shares GlobalVariables and every nested statement block (the bodies of
+// if/loop/switch/block statements) with the original. The DXIL pipeline writes
+// to both: inlining, SROA, mem2reg and DCE rewrite nested blocks in place, and
+// resource analysis assigns a synthetic Binding to push-constant globals. Those
+// parts are therefore copied here as well.
+func cloneModuleForLowering(src *ir.Module) *ir.Module {
+	dst := ir.CloneModuleForOverrides(src)
+
+	dst.GlobalVariables = make([]ir.GlobalVariable, len(src.GlobalVariables))
+	copy(dst.GlobalVariables, src.GlobalVariables)
+	for i := range dst.GlobalVariables {
+		if b := dst.GlobalVariables[i].Binding; b != nil {
+			cp := *b
+			dst.GlobalVariables[i].Binding = &cp
+		}
+	}
+
+	for i := range dst.Functions {
+		dst.Functions[i].Body = cloneBlock(dst.Functions[i].Body)
+	}
+	for i := range dst.EntryPoints {
+		dst.EntryPoints[i].Function.Body = cloneBlock(dst.EntryPoints[i].Function.Body)
+	}
+	return dst
+}
+
+// cloneBlock copies a statement block together with all blocks nested in it.
+// Statement kinds are values; only the slices they hold are shared, so copying
+// the slices (recursively) is sufficient.
+func cloneBlock(b ir.Block) ir.Block {
+	if b == nil {
+		return nil
+	}
+	out := make(ir.Block, len(b))
+	copy(out, b)
+	for i := range out {
+		switch k := out[i].Kind.(type) {
+		case ir.StmtBlock:
+			k.Block = cloneBlock(k.Block)
+			out[i].Kind = k
+		case ir.StmtIf:
+			k.Accept = cloneBlock(k.Accept)
+			k.Reject = cloneBlock(k.Reject)
+			out[i].Kind = k
+		case ir.StmtLoop:
+			k.Body = cloneBlock(k.Body)
+			k.Continuing = cloneBlock(k.Continuing)
+			out[i].Kind = k
+		case ir.StmtSwitch:
+			cases := make([]ir.SwitchCase, len(k.Cases))
+			copy(cases, k.Cases)
+			for ci := range cases {
+				cases[ci].Body = cloneBlock(cases[ci].Body)
+			}
+			k.Cases = cases
+			out[i].Kind = k
+		}
+	}
+	return out
 }
 
 // Compile translates a naga IR module to DXIL bytecode wrapped in
